@@ -27,7 +27,17 @@ Verdict(x) ==
       quiet == \A i \in 1..Len(tr) : /\ ~(tr[i].k \in {"abandon", "escape", "hang"})
                                      /\ ~(tr[i].k = "ev" /\ tr[i].name \in {"closed", "rejected", "unresponsive"})
                                      /\ ~(tr[i].k = "rd" /\ tr[i].what \in {"error", "boom"})
+      \* by the server's own frame order: Pings that were delivered before the server's Close frame (all of them if it sent none)
+      dfs == DeliveredFrames(tr)
+      srvClose == FirstIdx(dfs, LAMBDA f : f.op = OpClose)
+      earlyPings == Len(SelectSeq(refPings, LAMBDA m : srvClose = 0 \/ m.at < srvClose))
+      undisturbed == /\ quiet /\ ref.viol = 0
+                     /\ \A i \in 1..Len(tr) : ~(tr[i].k = "wrf") /\ ~(tr[i].k = "call" /\ tr[i].m = "close")
   IN FirstFailing(<<
+    \* (answerable() above follows the client's own write order; a client that writes its Close echo before it has answered an
+    \* earlier Ping would make that Ping look unanswerable - so count against the server's frame order as well)
+    <<"ping_before_the_servers_close_not_answered",
+        ~(cfg.auto_pong /\ undisturbed) \/ Len(pongPos) = earlyPings>>,
     <<"pong_without_auto_pong", cfg.auto_pong \/ pongPos = <<>> >>,
     <<"number_of_pongs_differs_from_answerable_pings", ~cfg.auto_pong \/ Len(pongPos) = Len(expected)>>,
     <<"pong_payload_or_order_differs",
